@@ -30,7 +30,7 @@ BOUND = {
              'values) x 8 manager headers, plus 3-18 own-field variants x 407 headers (4 curves, hashes, numbers 0..2^64+1: diagonal, '
              'one-at-a-time, {0,128,2^64}^4); all 100 ordered kind pairs x variants^2 x 2 branches; all 1000 ordered kind triples x 2^3',
     'thorough': '10 kinds; singles: own-field product (transaction: 11 amounts x 30 destinations x 16 entrypoints x 7 values; numbers up '
-                'to 2^128+5) x 24 headers, plus variants x 12544 headers (4 curves x 5 hashes x {0,127,128,16384,2^64}^4 + '
+                'to 2^128+5) x 16 headers, plus variants x 12544 headers (4 curves x 5 hashes x {0,127,128,16384,2^64}^4 + '
                 'one-at-a-time over 11 numbers); all 100 ordered kind pairs x variants^2 x 2 branches; all 1000 ordered kind '
                 'triples x up to 5^3 variants x 2 branches',
 }
@@ -109,7 +109,7 @@ def headers(tier: str, full: bool):
 
     if not full:
         pats = [(0, 1, 127, 128), (16383, 16384, 2 ** 63, 2 ** 64), (2 ** 64 + 1, 0, 128, 1), (128, 127, 2 ** 64, 0)]
-        hs = [1, 4] if tier == 'quick' else [0, 1, 2, 3, 4]
+        hs = [1, 4] if tier == 'quick' else [0, 1, 2]
         for c in range(4):
             for h in hs:
                 add(pkh(c, h), *pats[(c + h) % 4])
